@@ -7,6 +7,10 @@ Monitor  : harness/poolcommon.py: join()/join(t) return values against the compl
            the call, stop() returns in every explored schedule (deadlock / step-limit detection), all workers dead and
            fresh-pool accounting at the return of stop(), redundant start()/stop() are single no-op operations,
            the same monitors across restarts; join(0) / join(0.0) answer at once (never blocked) with the right Boolean.
+           stop() does not depend on the pool's idle time-out (`stop-needs-idle-timeout`: nobody enabled, the stopping
+           thread parked in Thread.join, a worker asleep in queue.get on an empty queue - no stop marker left for it;
+           theorems C11_stop_markers_cover / C11_stop_waiter_enabled say that the unchanged pool never gets there); class B:
+           bounded queues smaller than the number of idle workers at stop(), also with timeout=None.
 Assumed  : a finite pool `timeout` (hypothesis `cfg.timeoutNone = false` of C11_stop_no_stuck); pools built with
            timeout=None are run for the correspondence and the safety monitors only (class N).
 """
@@ -16,12 +20,12 @@ REQUIRED_THEOREMS = [
     "C11_join_true", "C11_join_timeout", "C11_join_true_running", "C11_join_timeout_true_running",
     "C11_idempotent_start", "C11_idempotent_stop",
     "C11_workers_exit", "C11_no_sentinel", "C11_restart", "C11_workers_exit_restart", "C11_restart_start", "C11_restart_spawn", "C11_restart_reach", "C11_dead_forever",
-    "C11_stop_no_stuck", "C11_stop_measure", "C11_stop_flag",
+    "C11_stop_no_stuck", "C11_stop_measure", "C11_stop_flag", "C11_stop_markers_cover", "C11_stop_waiter_enabled",
     "C11_gen_poolJoinShape", "C11_gen_poolUnlockedAccesses", "C11_gen_poolSpawnRefusal", "C11_gen_poolClearDecrementsTasksOnly",
-    "C11_gen_poolStartRollback",
+    "C11_gen_poolStartRollback", "C11_gen_poolQueuePuts",
 ]
 
-MIX = [(4, "L1", None), (3, "L2", None), (1, "G", None), (1, "W", None), (1, "GR", None), (2, "S", None), (1, "F", None), (1, "N", None)]
+MIX = [(4, "L1", None), (3, "L2", None), (1, "G", None), (1, "W", None), (1, "GR", None), (2, "S", None), (1, "F", None), (1, "N", None), (2, "B", None), (1, "C", None)]
 
 
 def run(ctx):
